@@ -88,6 +88,17 @@ Section WithH.
     apply Z.eqb_eq in S3, CA, IL. destruct Mis as [M|[M|M]]; contradiction.
   Qed.
 
+  Lemma get_rr_misplaced_formerror : forall w kr rmac now multi section count i st np tp cp lp dp,
+    get_name w (length w) (r_pos st) = Ok np ->
+    get_uint w (length w) (snd np) 2 = Ok tp ->
+    get_uint w (length w) (snd tp) 2 = Ok cp ->
+    get_uint w (length w) (snd cp) 4 = Ok lp ->
+    get_uint w (length w) (snd lp) 2 = Ok dp ->
+    fst tp = TSIG ->
+    (section <> 3 \/ fst cp <> ANY \/ i <> count - 1) ->
+    get_rr H w kr rmac now multi section count i st = Lib eBadTSIG /\ is_formerror eBadTSIG = true.
+  Proof. intros. split; [eapply get_rr_misplaced; eassumption | reflexivity]. Qed.
+
   Lemma get_section_ok : forall rem w kr rmac now multi section count st st',
     get_section H w kr rmac now multi section count rem st = Ok st' ->
     exists new, r_recs st' = new ++ r_recs st /\
